@@ -69,7 +69,7 @@ theorem bstmt_slot (env : Env) (n : Nat) (ih : BStmt env n) :
   · rw [he] at h
     obtain ⟨rfl, rfl⟩ := ok_inj h
     exact bare_nil
-  · rcases hcase with ⟨_, _, he⟩ | ⟨f, hf, _, he⟩
+  · rcases hcase with ⟨_, _, he⟩ | ⟨f, hf, _, _, he⟩
     · rw [he] at h
       exact ih.nodes body c3 w toks w' hb hc3 hw h
     · rw [he] at h
